@@ -305,6 +305,9 @@ def run(rep, tier, rng):
     for j, b in enumerate(progs.base_programs(rng, NBASE[tier])):
         code = b["code"].replace("pub fn run() {", "#[allow(warnings)] pub fn run() {").replace("\nfn dump(", "\n#[allow(warnings)] fn dump(")
         cases.append(C.Case(f"b{j}", code, {"src": b["src"], "traits": b["traits"]}))
+    # one fixed drop-in program per listed finding of that family (so that every run shows them)
+    cases.append(C.Case("bfix0", "#[::derive_ex::derive_ex(Clone)]\n#[repr(packed)]\npub struct Ty { pub f0: i32, pub f1: u8 }", {"src": "dropin", "traits": ["Clone"]}))
+    cases.append(C.Case("bfix1", "#[derive(::derive_ex::Ex)]\n#[derive_ex(Clone, Debug)]\npub struct Ty<'a, 'b, T>(pub &'a T, pub &'b T);", {"src": "dropin", "traits": ["Clone", "Debug"]}))
     _, notes = C.run_cases(cases, "c20", header=HEADER, batch_size=60, runnable=False)
     for n in notes:
         rep.inconcl(n)
@@ -362,6 +365,8 @@ def run(rep, tier, rng):
             sig = f"C20|{d['code']}|{msg[:60]}"
             if d["code"] == "E0793" and re.search(r"#\[repr\([^)]*packed", c.code):
                 sig = "C20|E0793|packed-struct"     # one signature for the listed finding (the same one C12 lists)
+            if d["code"] == "E0283" and "&'a T" in c.code and "&'b T" in c.code:
+                sig = "C20|E0283|field-types-equal-up-to-lifetimes"     # listed finding (the same one C12 lists)
             sigs.setdefault(sig, []).append((c, d, ft, tr))
     for sig, lst in list(sigs.items())[:30]:
         # report the smallest witness
